@@ -17,6 +17,7 @@ GENERATORS = {
     "Derivable_gen": "translator.gen_derivable",
     "NativeFields_gen": "translator.gen_native",
     "Refresh_gen": "translator.gen_refresh",
+    "SymAgg_gen": "translator.gen_symagg",
 }
 
 
